@@ -1599,3 +1599,127 @@ Proof.
   - (* dump: outside the specification *)
     cbn [s_step] in Hs. apply pair_equal_spec in Hs. destruct Hs as [_ <-]. congruence.
 Qed.
+
+(* ------------------------------------------------------------------------------------------ *)
+(** * Whole histories *)
+
+(** running a history through M and S side by side (S is fed M's answers for new references);
+    the flag says that S stayed inside its domain *)
+Fixpoint run_states (st : mst) (s : smap) (h : list op) : mst * smap * bool :=
+  match h with
+  | [] => (st, s, true)
+  | o :: h' =>
+      let '(st', rm) := m_step st o in
+      let '(s', rs) := s_step s (feed o rm) in
+      match rs with RNoDomain => (st', s', false) | _ => run_states st' s' h' end
+  end.
+
+Fixpoint run_agree (st : mst) (s : smap) (h : list op) : Prop :=
+  match h with
+  | [] => True
+  | o :: h' =>
+      let '(st', rm) := m_step st o in
+      let '(s', rs) := s_step s (feed o rm) in
+      rs = RNoDomain \/ (res_agree o rm rs /\ run_agree st' s' h')
+  end.
+
+Lemma res_dec_nodomain : forall r : res, r = RNoDomain \/ r <> RNoDomain.
+Proof. destruct r; auto; right; discriminate. Qed.
+
+Lemma run_agree_rel : forall h st s, rel st s -> run_agree st s h.
+Proof.
+  induction h as [|o h IH]; intros st s R; cbn [run_agree]; auto.
+  destruct (m_step st o) as [st' rm] eqn:Em. destruct (s_step s (feed o rm)) as [s' rs] eqn:Es.
+  destruct (res_dec_nodomain rs) as [|Hnd]; auto. right.
+  destruct (inv_step_lemma st s o st' rm s' rs R Em Es Hnd) as [R' Ha]. split; auto.
+Qed.
+
+Lemma run_states_rel : forall h st s, rel st s ->
+  forall st' s', run_states st s h = (st', s', true) -> rel st' s'.
+Proof.
+  induction h as [|o h IH]; intros st s R st' s' H; cbn [run_states] in H.
+  - injection H as <- <-. exact R.
+  - destruct (m_step st o) as [st1 rm] eqn:Em. destruct (s_step s (feed o rm)) as [s1 rs] eqn:Es.
+    destruct (res_dec_nodomain rs) as [->|Hnd]; [discriminate|].
+    destruct (inv_step_lemma st s o st1 rm s1 rs R Em Es Hnd) as [R' _].
+    apply (IH st1 s1 R'). destruct rs; auto; congruence.
+Qed.
+
+(** dir_refines_map: every history that starts by creating a file, with any block size *)
+Theorem dir_refines_map_lemma : forall n h st0 s0, run_agree st0 s0 (OOpen n :: h).
+Proof.
+  intros n h st0 s0. cbn [run_agree]. destruct (m_step st0 (OOpen n)) as [st' rm] eqn:Em.
+  assert (Ef : feed (OOpen n) rm = OOpen n) by reflexivity. rewrite Ef.
+  destruct (s_step s0 (OOpen n)) as [s' rs] eqn:Es.
+  destruct (res_dec_nodomain rs) as [|Hnd]; auto. right.
+  destruct (open_rel st0 n s0 s' rs st' rm Em Es Hnd) as [R E]. split; [exact E|]. apply run_agree_rel. exact R.
+Qed.
+
+Lemma reachable_rel : forall n h st0 s0 st s, run_states st0 s0 (OOpen n :: h) = (st, s, true) -> rel st s.
+Proof.
+  intros n h st0 s0 st s H. cbn [run_states] in H. destruct (m_step st0 (OOpen n)) as [st' rm] eqn:Em.
+  assert (Ef : feed (OOpen n) rm = OOpen n) by reflexivity. rewrite Ef in H.
+  destruct (s_step s0 (OOpen n)) as [s' rs] eqn:Es.
+  destruct (res_dec_nodomain rs) as [->|Hnd]; [discriminate|].
+  destruct (open_rel st0 n s0 s' rs st' rm Em Es Hnd) as [R _].
+  apply (run_states_rel h st' s' R). destruct rs; auto; congruence.
+Qed.
+
+(** the hypotheses of the freshness / enumeration / counting theorems hold in every reachable state *)
+Lemma reachable_inv_lemma : forall n h st0 s0 st s, run_states st0 s0 (OOpen n :: h) = (st, s, true) ->
+  index_ok st /\ maxref_ok st /\ tree_bits_ok st /\ no_free_tags st /\ Permutation (abs st) s.
+Proof.
+  intros n h st0 s0 st s H. destruct (reachable_rel _ _ _ _ _ _ H) as [I P].
+  destruct (Inv_inv st I) as (_ & H1 & H2 & H3 & H4). auto.
+Qed.
+
+(* ---- cache mode ---- *)
+Definition is_cache_op (o : op) : bool := match o with OCache _ | OSync => true | _ => false end.
+
+Lemma s_state_feed : forall s o rm rm', fst (s_step s (feed o rm)) = fst (s_step s (feed o rm')).
+Proof.
+  intros s o rm rm'. destruct o; try reflexivity.
+  - destruct rm, rm'; cbn [feed s_step fst]; reflexivity.
+  - destruct rm, rm'; cbn [feed s_step fst]; try reflexivity;
+      repeat match goal with |- context [if ?c then _ else _] => destruct c end; reflexivity.
+Qed.
+
+Lemma s_state_cache : forall s o rm, is_cache_op o = true -> s_step s (feed o rm) = (s, ROk).
+Proof. intros s o rm H. destruct o; try discriminate; reflexivity. Qed.
+
+Lemma run_states_s_indep : forall h stA stB s a sa b sb,
+  run_states stA s h = (a, sa, true) ->
+  run_states stB s (filter (fun o => negb (is_cache_op o)) h) = (b, sb, true) -> sa = sb.
+Proof.
+  induction h as [|o h IH]; intros stA stB s a sa b sb HA HB.
+  - cbn in HA, HB. congruence.
+  - cbn [filter] in HB. cbn [run_states] in HA.
+    destruct (m_step stA o) as [stA' rmA] eqn:EmA. destruct (s_step s (feed o rmA)) as [sA' rsA] eqn:EsA.
+    destruct (is_cache_op o) eqn:Ec; cbn [negb] in HB.
+    + rewrite (s_state_cache s o rmA Ec) in EsA. injection EsA as <- <-. apply (IH stA' stB s a sa b sb); auto.
+    + cbn [run_states] in HB.
+      destruct (m_step stB o) as [stB' rmB] eqn:EmB. destruct (s_step s (feed o rmB)) as [sB' rsB] eqn:EsB.
+      assert (sA' = sB').
+      { pose proof (s_state_feed s o rmA rmB) as H. rewrite EsA, EsB in H. exact H. }
+      subst sB'. destruct rsA; try discriminate; destruct rsB; try discriminate;
+        apply (IH stA' stB' sA' a sa b sb); auto.
+Qed.
+
+(** cache_mode_irrelevant: with caching off, on, or toggled anywhere (and Hsync anywhere), the directory read
+    back after close is the same: it is the one of the history with every cache operation removed *)
+Theorem cache_mode_irrelevant_lemma : forall n h st0 s0 st1 s1 st2 s2,
+  run_states st0 s0 (OOpen n :: h) = (st1, s1, true) ->
+  run_states st0 s0 (OOpen n :: filter (fun o => negb (is_cache_op o)) h) = (st2, s2, true) ->
+  exists r1 r2, hreopen st1 = Some r1 /\ hreopen st2 = Some r2 /\
+                m_slots r1 = m_slots st1 /\ m_slots r2 = m_slots st2 /\ Permutation (abs r1) (abs r2).
+Proof.
+  intros n h st0 s0 st1 s1 st2 s2 H1 H2.
+  destruct (reachable_rel _ _ _ _ _ _ H1) as [I1 P1]. destruct (reachable_rel _ _ _ _ _ _ H2) as [I2 P2].
+  destruct (hreopen_spec st1 I1) as (r1 & E1 & _ & S1 & _). destruct (hreopen_spec st2 I2) as (r2 & E2 & _ & S2 & _).
+  exists r1, r2. repeat split; auto.
+  assert (s1 = s2).
+  { change (OOpen n :: filter (fun o => negb (is_cache_op o)) h)
+      with (filter (fun o => negb (is_cache_op o)) (OOpen n :: h)) in H2.
+    eapply run_states_s_indep; eauto. }
+  subst s2. unfold abs. rewrite S1, S2. eapply Permutation_trans; [exact P1|apply Permutation_sym; exact P2].
+Qed.
